@@ -296,7 +296,10 @@ func tableRegistryKeys() []kase {
 }
 
 // user signature shapes: req* [&optional o+] ([&rest r] | [&key k+])
-type ushape struct{ req, opt, key int; rest bool }
+type ushape struct {
+	req, opt, key int
+	rest          bool
+}
 
 func (u ushape) formals() string {
 	var p []string
@@ -441,6 +444,19 @@ func shadowTemplates() []shadowTpl {
 		{"global-set/after", "(progn\n{CALL}\n)\n(set '{B} (lambda (&rest a) 0))", 2},
 		{"other-package-defun", "(in-package 'other)\n(defun {B} (&rest a) 0)\n(in-package 'user)\n{CALL}", 4},
 		{"dotimes-var/body", "(dotimes ({B} 1)\n{CALL})", 2},
+		// several package sections in one file: what a top-level definition shadows must not depend on in-package forms
+		// that come LATER in the file, nor on sections of other packages in between
+		{"global-defun/before/later-in-package", "(defun {B} (&rest a) 0)\n{CALL}\n(in-package 'other)\n(in-package 'user)", 2},
+		{"global-defun/before/sections-between", "(defun {B} (&rest a) 0)\n(in-package 'other)\n(set 'zq 1)\n(in-package 'user)\n{CALL}", 5},
+		{"global-defun/before/trailing-in-package", "(defun {B} (&rest a) 0)\n{CALL}\n(in-package 'user)", 2},
+		{"global-defmacro/before/later-in-package", "(defmacro {B} (&rest a) 0)\n{CALL}\n(in-package 'other)\n(in-package 'user)", 2},
+		{"section-defun/call-in-same-section/then-user", "(in-package 'zlib)\n(defun {B} (&rest a) 0)\n{CALL}\n(in-package 'user)", 3},
+		{"section-defun/call-in-same-section/last", "(in-package 'user)\n(in-package 'zlib)\n(defun {B} (&rest a) 0)\n{CALL}", 4},
+		{"section-defun/call-after-reentering", "(in-package 'zlib)\n(defun {B} (&rest a) 0)\n(in-package 'user)\n(in-package 'zlib)\n{CALL}", 5},
+		{"let/body/later-in-package", "(let ([{B} (lambda (&rest a) 0)])\n{CALL})\n(in-package 'other)\n(in-package 'user)", 2},
+		{"flet/body/later-in-package", "(flet ([{B} (&rest a) 0])\n{CALL})\n(in-package 'other)\n(in-package 'user)", 2},
+		{"none/later-in-package", "{CALL}\n(in-package 'other)\n(in-package 'user)", 1},
+		{"none/in-other-section", "(in-package 'zlib)\n{CALL}\n(in-package 'user)", 2},
 		// a shadowing form that is OVER, then the call inside a LATER, unrelated binding form (state kept between forms)
 		{"let/then-inside-later-let", "(let ([{B} (lambda (&rest a) 0)]) 0)\n(let ([zz 1])\n{CALL})", 3},
 		{"let/then-inside-later-let-value", "(let ([{B} (lambda (&rest a) 0)]) 0)\n(let ([zz\n{CALL}]) zz)", 3},
